@@ -146,12 +146,16 @@ func (c *SymbolNode) SetTokenType(value int) {
 //	Returns: the symbol this node represents
 func (c *SymbolNode) Ancestry() []rune {
 	if c.ancestry == nil || len(c.ancestry) == 0 {
+		// Build the text in a slice of its own: appending to the parent's
+		// cached slice would share its backing array between siblings
+		ancestry := []rune{}
 		if c.parent != nil {
-			c.ancestry = c.parent.Ancestry()
+			ancestry = append(ancestry, c.parent.Ancestry()...)
 		}
 		if c.character != 0 {
-			c.ancestry = append(c.ancestry, c.character)
+			ancestry = append(ancestry, c.character)
 		}
+		c.ancestry = ancestry
 	}
 	return c.ancestry
 }
